@@ -647,6 +647,17 @@ int main(int argc, char **argv) {
             if(r > 0) out_append(b, r > want ? (size_t)want : (size_t)r);
             free(b);
             RET("\"rc\":%zd,\"k\":%s,\"want\":%zd,\"off\":%lld,\"valid\":%d", r, t[2], want, (long long)o, zck_get_chunk_valid(c));
+        } else if(!strcmp(op, "chunkat")) {
+            /* chunkat C k... : zck_get_chunk lookups by number, in the given order, on one context */
+            for(int a = 2; t[a]; a++) {
+                long long k = atoll(t[a]);
+                zckChunk *c = zck_get_chunk(C(t[1]), (size_t)k);
+                if(!c) { zh_log("{\"i\":%d,\"op\":\"chunkat\",\"k\":%lld,\"nochunk\":1}", opi, k); zck_clear_error(C(t[1])); continue; }
+                char *d = zck_get_chunk_digest(c);
+                zh_log("{\"i\":%d,\"op\":\"chunkat\",\"k\":%lld,\"number\":%zd,\"start\":%zd,\"comp_size\":%zd,\"size\":%zd,\"digest\":\"%s\"}", opi, k,
+                       zck_get_chunk_number(c), zck_get_chunk_start(c), zck_get_chunk_comp_size(c), zck_get_chunk_size(c), d ? d : "");
+                free(d);
+            }
         } else if(!strcmp(op, "copy")) {
             bool r = zck_copy_chunks(C(t[1]), C(t[2]));
             RET("\"rc\":%d", (int)r);
